@@ -583,6 +583,30 @@ def check_baf(ctx, arr, name, all_rows, het_rows, paired, tables, variants, sub)
     return hit
 
 
+def check_baf_history(ctx, arr, name, het_rows, tables, sub):
+    """One array asked for its BAFs, its frequencies then edited in place (every alt_freq halved through the public
+    column assignment), and asked again: the second answer is the median of the frequencies the records hold now."""
+    if het_rows is None:
+        return
+    halved = lambda s: None if s["t"] is None else s["t"] * 0.5  # noqa: E731
+    for tab in tables:
+        ranges = tab["ranges"]
+        adm = expected_baf(het_rows, ranges, None, halved)
+        if all(a == M.OPEN for a in adm):
+            continue
+        seg = ga_ranges(ranges)
+        a = arr.copy()
+
+        def asked_edited_asked():
+            a.baf_by_ranges(seg)
+            a["alt_freq"] = a["alt_freq"] * 0.5
+            return [py(x) for x in a.baf_by_ranges(seg)]
+
+        got = ctx.call(asked_edited_asked)
+        cmp_vector(ctx, BAF_CLAUSE, "baf_by_ranges/history/asked-frequencies-edited-asked-again", adm, got, {**sub, "array": name, **tab, "history": "baf_by_ranges; alt_freq halved in place; baf_by_ranges"})
+        ctx.stratum("baf-history: asked, frequencies edited in place, asked again")
+
+
 ALL6 = [(None, False), (True, False), (False, False), (None, True), (True, True), (False, True)]
 
 
@@ -959,6 +983,7 @@ def run_combo(case, ctx, tmp):
                 hets = None  # documented fall-back to all rows: not claimed
             if not swapped:
                 hit = check_baf(ctx, got, "read", rows, hets, paired, tables, v_full if paired else v_default, sub)
+                check_baf_history(ctx, got, "read", hets, [t_ for t_ in tables if t_["layout"] == "whole"], sub)
                 ctx.state(("combo-baf-read", idxs, sid, nid), nontrivial=hit)
             check_vectors(ctx, got, "read", rows, paired, sub)
         for zf in (None, 0.25):
@@ -987,6 +1012,7 @@ def run_combo(case, ctx, tmp):
                     hit = check_baf(ctx, harr, name, all_rows, claimed, paired and not tb, tables, variants, hsub)
                     ctx.state(("combo-baf-het", idxs, sid, nid, zf, tb), nontrivial=hit)
                     if plain:
+                        check_baf_history(ctx, harr, "het", claimed, [t_ for t_ in tables if t_["layout"] == "whole"], hsub)
                         check_vectors(ctx, harr, "het", hrows, paired, hsub)
                         check_calls(ctx, harr, claimed, paired, hsub, len(idxs))
     ctx.sample("combo", {"records": [{k: v for k, v in slice_[i].items()} for i in idxs]})
